@@ -90,6 +90,7 @@ func goFacts(p *pkgInfo) string {
 	cloneLocked, cloneCopiesData := false, false
 	selectDoneLocked := false
 	casesPerStatement := false
+	selectCopiesCases := false
 	wrapperFramePerCall := false
 
 	if frun != nil {
@@ -263,9 +264,13 @@ func goFacts(p *pkgInfo) string {
 				}
 			}
 			for _, cl := range p.execClosures(fd) {
+				// the repair of F08: the closure works on its own copy of the per-statement case vector
+				if l := cl.Body.List; len(l) >= 2 && exprString(l[0]) == "cs := make([]reflect.SelectCase, len(cases))" && exprString(l[1]) == "copy(cs, cases)" {
+					selectCopiesCases = true
+				}
 				eachStmtList(cl.Body, func(list []ast.Stmt) {
 					for k, s := range list {
-						if exprString(s) == "cases[nbClause] = f.done" {
+						if t := exprString(s); t == "cases[nbClause] = f.done" || t == "cs[nbClause] = f.done" {
 							selectDoneLocked = lockedBy(list, k, "f.mutex", true)
 						}
 					}
@@ -293,11 +298,11 @@ func goFacts(p *pkgInfo) string {
 
 	var b strings.Builder
 	b.WriteString("open YaegiVerif.ConcFrames in\n/-- interp/run.go call, callBin, getFunc, genFunctionWrapper, _select; interp/interp.go frame.clone -/\ndef goFacts : GoFacts :=\n")
-	fmt.Fprintf(&b, "  { goBinArgsCopied := %s,\n    srcArgsCopied := %s,\n    frameInClosure := %s,\n    wrapperFramePerCall := %s,\n    callBinGoArgsCopied := %s,\n    callBinGoArg := %s,\n    callBinGoStmt := %s,\n    getFuncClones := %s,\n    getFuncAncIsClone := %s,\n    getFuncStoreLocked := %s,\n    getFuncRestoreLocked := %s,\n    cloneLocked := %s,\n    cloneCopiesData := %s,\n    selectDoneLocked := %s,\n    casesPerStatement := %s,\n    callArgStores := %s,\n    frameCellInits := %s,\n    goStmts := %s,\n    newFrameCalls := %s }\n",
+	fmt.Fprintf(&b, "  { goBinArgsCopied := %s,\n    srcArgsCopied := %s,\n    frameInClosure := %s,\n    wrapperFramePerCall := %s,\n    callBinGoArgsCopied := %s,\n    callBinGoArg := %s,\n    callBinGoStmt := %s,\n    getFuncClones := %s,\n    getFuncAncIsClone := %s,\n    getFuncStoreLocked := %s,\n    getFuncRestoreLocked := %s,\n    cloneLocked := %s,\n    cloneCopiesData := %s,\n    selectDoneLocked := %s,\n    casesPerStatement := %s,\n    selectCopiesCases := %s,\n    callArgStores := %s,\n    frameCellInits := %s,\n    goStmts := %s,\n    newFrameCalls := %s }\n",
 		boolLean(goBinArgsCopied), boolLean(srcArgsCopied), boolLean(frameInClosure), boolLean(wrapperFramePerCall),
 		boolLean(callBinGoArgsCopied), common.LeanStr(callBinGoArg), common.LeanStr(callBinGoStmt),
 		boolLean(getFuncClones), boolLean(getFuncAncIsClone), boolLean(getFuncStoreLocked), boolLean(getFuncRestoreLocked),
-		boolLean(cloneLocked), boolLean(cloneCopiesData), boolLean(selectDoneLocked), boolLean(casesPerStatement),
+		boolLean(cloneLocked), boolLean(cloneCopiesData), boolLean(selectDoneLocked), boolLean(casesPerStatement), boolLean(selectCopiesCases),
 		common.LeanStrList(callArgStores), common.LeanStrList(frameCellInits), common.LeanStrList(goStmts), common.LeanStrList(newFrameCalls))
 	return b.String()
 }
